@@ -24,6 +24,8 @@ Record case := mk {
   obs : list Z;               (* drained list / elements the ForEach callback saw, in order *)
   err : option Z;             (* error returned by ForEach *)
   after : list (list Z);      (* contents of the source slices after the run, pre-order *)
+  post : list (Z * Z);        (* outside the documented protocol, compared with the model only: what two more Next()
+                                 calls answered after the loop ended: (-1,0) panic, (0,0) false, (1,v) true with Value v *)
   panicked : bool             (* the real code panicked or did not stop *)
 }.
 
@@ -47,8 +49,30 @@ Definition model (c : case) : option (list Z * option Z) :=
   | CbDrain => option_map (fun l => (l, None)) (run FUEL (expr c))
   | m => run_foreach FUEL (interp_cb m) (expr c)
   end.
+(* the iterator the documented loop leaves behind, and what further Next() calls do to it *)
+Fixpoint final (fuel : nat) (i : it) : option it :=
+  match fuel with O => None | S n =>
+  match next FUEL i with
+  | None => None
+  | Some (false, i') => Some i'
+  | Some (true, i') => final n i'
+  end end.
+Fixpoint again (k : nat) (i : it) : list (Z * Z) :=
+  match k with O => [] | S k' =>
+  match next FUEL i with
+  | None => [(-1, 0)]
+  | Some (false, i') => (0, 0) :: again k' i'
+  | Some (true, i') => (1, value i') :: again k' i'
+  end end.
+Definition model_post (c : case) : list (Z * Z) :=
+  match mode c, build FUEL 0 (expr c) with
+  | CbDrain, Some i => if is_nil i then [] else match final FUEL i with Some i' => again 2 i' | None => [] end
+  | _, _ => []
+  end.
+Definition zz_eqb (a b : Z * Z) : bool := Z.eqb (fst a) (fst b) && Z.eqb (snd a) (snd b).
+
 Definition model_ok (c : case) : bool :=
-  match model c with Some r => agrees r c | None => false end.
+  match model c with Some r => agrees r c && list_eqb zz_eqb (model_post c) (post c) | None => false end.
 
 Definition mismatches (cs : list case) : list N := idx_where (fun c => negb (model_ok c)) 0%N cs.
 Definition violations (cs : list case) : list N := idx_where (fun c => negb (oracle c)) 0%N cs.
